@@ -265,6 +265,27 @@ M("extrapolate-uses-template-molecule", ["C05"], "gaddlemaps/_manager.py",
 M("premature-check-after-open", ["C05"], "gaddlemaps/_manager.py",
   ["        for align in complete_correspondence.values():\n            if align.exchange_map is None:\n                raise SystemError(('Before extrapolating the system, '\n                                   'calculate_exchange_maps method must be '\n                                   'called.'))\n\n        with open_coordinate_file(fgro_out, 'w') as fgro:\n"],
   ["        with open_coordinate_file(fgro_out, 'w') as fgro:\n            for align in complete_correspondence.values():\n                if align.exchange_map is None:\n                    raise SystemError('calculate_exchange_maps method must be called.')\n"])
+# ---- command line ------------------------------------------------------------------------------
+M("cli-ignores-scale", ["C20"], "gaddlemaps/_cli.py",
+  "    manager.calculate_exchange_maps(scale_factor=scale)", "    manager.calculate_exchange_maps()")
+M("cli-default-output-in-cwd", ["C20"], "gaddlemaps/_cli.py",
+  '        out_path = os.path.join(folder, f"mapped_{basename}")', '        out_path = f"mapped_{basename}"')
+M("cli-exclude-ignored", ["C20"], "gaddlemaps/_cli.py",
+  "                if (args.exclude is not None) and (molecule_name in args.exclude):", "                if (args.exclude is not None) and (molecule_name in args.exclude[1:]):")
+M("cli-first-coordinate-wins", ["C20"], "gaddlemaps/_cli.py",
+  "                try:\n                    Molecule.from_files(coordinate_file, molecule_info[\"top_AA\"])\n                except OSError:\n                    pass\n                else:\n                    added_molecues[molecule_name][\"coor_AA\"] = coordinate_file",
+  "                if coordinate_file.endswith('_AA.gro'):\n                    added_molecues[molecule_name][\"coor_AA\"] = coordinate_file")
+M("cli-top-aa-by-iteration-order", ["C20"], "gaddlemaps/_cli.py",
+  ["        except OSError:\n            pass\n        else:\n            used_files.add(filename)",
+   "        if (filename not in used_files) and (molecule.name in added_molecues):"],
+  ["        except OSError:\n            if molecule.name in added_molecues:\n                added_molecues[molecule.name][\"top_AA\"] = filename\n        else:\n            used_files.add(filename)",
+   "        if False:"])
+M("cli-align-skipped", ["C20"], "gaddlemaps/_cli.py",
+  "    manager.align_molecules()\n", "")
+M("cli-end-molecules-in-sorted-order", ["C20"], "gaddlemaps/_cli.py",
+  "    manager = Manager.from_files(refrence_coordinates, *itps_cg)", "    manager = Manager.from_files(refrence_coordinates, *sorted(itps_cg))")
+M("cli-discovery-keyerror-back", ["C20"], "gaddlemaps/_cli.py",
+  '            if "coor_AA" not in molecule_info and "top_AA" in molecule_info:', '            if "coor_AA" not in molecule_info:')
 # ---- pbc --------------------------------------------------------------------------
 M("pbc-floor-instead-of-round", ["C19"], "gaddlemaps/components/_residue.py",
   "            vect -= np.round(vect)", "            vect -= np.floor(vect)")
